@@ -535,7 +535,9 @@ func FunctionMap() map[string]physical.FunctionDetails {
 									r == ']' ||
 									r == '^' ||
 									r == '$' ||
-									r == '.'
+									r == '.' ||
+									r == '*' ||
+									r == '|'
 							}
 
 							// we assume that the escape character is '\'
